@@ -129,11 +129,12 @@ func coreTag(t string) bool {
 }
 
 // TagSequences builds family (b): sequences of dictionary entries in contexts.
-//   quick:    singles of the full dictionary in every context; all pairs of
-//             the core dictionary in 8 contexts; a seeded sample of nSample
-//             pairs of the full dictionary over all contexts;
-//   thorough: all pairs of the full dictionary in every context plus nSample
-//             seed-sampled triples.
+//
+//	quick:    singles of the full dictionary in every context; all pairs of
+//	          the core dictionary in 8 contexts; a seeded sample of nSample
+//	          pairs of the full dictionary over all contexts;
+//	thorough: all pairs of the full dictionary in every context plus nSample
+//	          seed-sampled triples.
 func TagSequences(thorough bool, seed int64, nSample int) []Input {
 	dict := Dictionary()
 	ctxs := Contexts()
